@@ -44,16 +44,23 @@ LEVEL = "model_checking"
 RULE = (
     "one case = one tasked attempt: a real collectObservations call of a real sensor on a real SensingAgent at an "
     "epoch, with an estimate (commanded pointing), a primary TargetAgent, 0-2 background TargetAgents, a prior "
-    "boresight / last-tasked time and a noise vector; all of it enumerated from the lattices in `bounds` (sensor kind "
-    "x host x masks x range limits x FoV shape x slew x epoch x target positions in the sensor's own horizon frame "
-    "incl. mask ends, the north seam and the zenith x pointing offsets at {0.5,0.98,1.02} of the FoV half widths x "
-    "background targets just inside/outside the FoV edge x noise in {0,+-e_i}) plus constructed threshold pairs "
-    "(target or site placed at threshold -/+ delta of: site darkness, umbra, limiting magnitude, galactic and Sun "
-    "exclusion cones, Earth-limb cone, radar detection range, range limits, slew reach). Every returned record is "
-    "compared with the independent oracle's failing-constraint set. non-trivial = some constraint margin of the "
-    "primary or of a background target is within 5 % of its scale (2 deg for angles, 5 % for ranges / power, 0.1 mag), "
-    "or the slew is infeasible, or a background target is present, or the noise vector is non-zero; distinct by "
-    "construction (lattice points)."
+    "boresight / last-tasked time and a noise vector; all of it enumerated from the lattices in `bounds`: (A) sensor "
+    "kind x host x az/el mask x range limits x target positions in the sensor's own horizon frame (azimuth fill, both "
+    "sides of every mask end, north seam, horizon, zenith, range limits +-1 m); (B) FoV shape x pointing (north seam, "
+    "near zenith) x primary offset at {0.5,0.98,1.02} of the half widths x two background targets at 0.98/1.02; (C) "
+    "slew rate x prior boresight (set, or carried over from a real previous tasking, or never tasked) x slew angle at "
+    "{0,0.5,0.98,1.02,2} of rate*dt and 179.9 deg, with background targets; (D) radar parameters one at a time x target "
+    "area x range at {0.5,0.999,1.001,2} of the detection range, default minimum range; (E) constructed threshold pairs "
+    "-/+ delta for site darkness, umbra edge, limiting magnitude, galactic and Sun exclusion cones, Earth-limb cone, "
+    "grazing sight lines of space sensors; (F) noise vector in {0,+-e_i} x diagonal/correlated covariance; (G) "
+    "Measurement classes and helpers, Observation.fromMeasurement, predictObservation on a real EstimateAgent, "
+    "asyncExecuteTasking through the in-process ray for 1-2 tasked sensors; (H) sensor clock bias; (S) rows written by "
+    "a real Scenario. Every returned record is compared with the independent oracle's failing-constraint set. "
+    "non-trivial = some constraint margin of the primary or a background target is within 5 % of its scale (2 deg for "
+    "mask / cone angles, 5 % of the FoV half width, 5 % of the range, 20 % of the received power, 0.1 mag, 2 solar radii "
+    "from the umbra edge, 100 km sight-line clearance), or the slew is infeasible, or a background target is present, "
+    "or the noise vector is non-zero; API-level cases (G, H, S) are non-trivial when they exercise a seam, the zenith, "
+    "a permuted label order, a rejected prediction or a multi-sensor job; distinct by construction (lattice points)."
 )
 ASSUMPTIONS = [
     "inertial -> Earth-fixed rotation (eci2ecef / ecef2eci) is the library's (subject of C04); the horizon frame, "
@@ -67,9 +74,10 @@ ASSUMPTIONS = [
     "at the zenith (horizontal part < 1e-7 of the range) the azimuth may come from the velocity (Vallado Alg. 27): both "
     "values are admitted",
     "elevation_range is order independent (as documented in SensorConfigBase)",
+    "the library's geodetic latitude (ecef2lla, C04) is right to 1e-10 rad (measured <= 5.4e-12 on the hosts used)",
     "inputs within the derived rounding band of a threshold are classified either-way (bands in c02_geom.py)",
 ]
-EXPECT_MIN_NONTRIVIAL = 3000
+EXPECT_MIN_NONTRIVIAL = 10000
 
 DEG = math.pi / 180.0
 MU = 398600.4415
@@ -86,6 +94,9 @@ LABELS = {
     "adv_radar": ["azimuth_rad", "elevation_rad", "range_km", "range_rate_km_p_sec"],
 }
 TYPE_STRING = {"optical": "Optical", "radar": "Radar", "adv_radar": "AdvRadar"}
+# IsAngle: azimuth is an angle on [0, 2 pi), elevation on [-pi, pi), range and range rate are not angles
+ANGLE_KINDS = [int(rmeas.IsAngle.ANGLE_0_2PI), int(rmeas.IsAngle.ANGLE_NEG_PI_PI), int(rmeas.IsAngle.NOT_ANGLE),
+               int(rmeas.IsAngle.NOT_ANGLE)]
 
 # non-diagonal (correlated) covariances exercise sqrtm(R) beyond an element-wise square root
 OPT_COV_FULL = [[4.0e-10, 1.5e-10], [1.5e-10, 2.5e-10]]
@@ -311,7 +322,8 @@ def _near(mg, geo):
             if abs(m) < 0.05 * max(geo["range"], 1.0):
                 return True
         elif k == "los":
-            if abs(m) < (100.0 if abs(m) > 1.0 else 0.02):
+            # clearance in km (both ends outside the equatorial sphere) or sine of the geocentric elevation
+            if abs(m) < (100.0 if geo["los_unit"] == "km" else 0.035):
                 return True
         elif k == "fov":
             if abs(m) < 0.05 * geo["fov_half"]:
@@ -335,6 +347,31 @@ def _expected_meas(W, geo, kind, tgt_eci):
         exp["range_km"] = [geo["range"]]
         exp["range_rate_km_p_sec"] = [geo["range_rate"]]
     return exp
+
+
+EPS = 2.220446049250313e-16
+
+
+def _tol(label, sez_or_geo, base=None):
+    """Tolerance of one measurement component for a given geometry.
+
+    Base values (TOL) plus the conditioning of the two angles next to the zenith: the Earth-fixed relative position is a
+    difference of two rotated position vectors of size R = max(|r_sensor|, |r_target|), each rounded to ~6 eps R per
+    component in the oracle and ~12 eps R in the library (two matrix products); azimuth = atan2 of horizontal
+    components of size h, so its error is <= 32 eps R / h.  The library's elevation is arcsin(z / rho), whose error is
+    eps * rho / h, capped by sqrt(2 * 2 eps) = 3e-8 at the zenith itself.  Both terms are < 1e-12 for h > 1 km.
+    """
+    t = (base or TOL)[label]
+    h, rho, rmax = sez_or_geo["h"], sez_or_geo["range"], sez_or_geo["rmax"]
+    if label == "azimuth_rad":
+        # ... plus the orientation of the horizon frame itself: the library's closed-form ecef2lla (subject of C04) and
+        # the oracle's iterated geodetic latitude differ by up to 5.4e-12 rad (measured: 3e-16 at the ground sites,
+        # 2.6e-14 at 89.9 N, 3.4e-13 / 5.4e-12 for the near-equatorial LEO / GEO hosts); a tilt d of the vertical moves
+        # the azimuth of a direction at elevation el by d * tan(el) <= d * rho / h; og.FRAME_TILT = 1e-10 rad is assumed
+        t += 32.0 * EPS * rmax / max(h, 1e-300) + og.FRAME_TILT * rho / max(h, 1e-300)
+    elif label == "elevation_rad":
+        t += min(4.0 * EPS * rho / max(h, 1e-300), 4e-8)
+    return t
 
 
 def _meas_err(label, got, cands):
@@ -379,12 +416,19 @@ def attempt(res, W, case, item, fam):
     finally:
         np.random.randn = saved
     ident = dict(case.get("id", {}))
+    tag = f"/{ident['sig']}" if ident.get("sig") else ""  # configurations with a known, separately reported root cause
     ident.update(fam=fam, kind=W.kind, host=W.host if isinstance(W.host, str) else list(W.host), t=W.t,
                  start=W.start.isoformat(), over=fw.jsonable(W.over), n_bg=len(bgs), noise=list(noise) if noise else None)
     if out is None:
         res.violate("attempt/raised", ident, signature=f"C02/raised/{fam}/{err.split(':')[0]}", observed=err, item=item)
         return None
     obs_list, miss_list, b_after, t_after = out
+    wrong = [type(o).__name__ for o in obs_list if not isinstance(o, Observation)]
+    wrong += [type(m).__name__ for m in miss_list if not isinstance(m, MissedObservation)]
+    if wrong:
+        res.violate("record_types", ident, signature="C02/record_types/" + "+".join(sorted(set(wrong))),
+                    observed=wrong, expected="Observation objects in the first list, MissedObservation in the second", item=item)
+        return None
 
     # ---- oracle
     verdicts = []
@@ -425,7 +469,7 @@ def attempt(res, W, case, item, fam):
         cid = dict(ident, role=role, target=tid, failing=fail, either=_either(s_))
         sig_tail = "+".join(fail) if fail else ("duplicate" if dup else "none")
         res.case("obs_constraints", cid, (not fail) and not dup, nontrivial=nontriv,
-                 signature=f"C02/obs_constraints/{role}/{sig_tail}",
+                 signature=f"C02/obs_constraints/{role}/{sig_tail}{tag}",
                  observed={"reported": "Observation", "margins": {k: m_[k] for k in fail}},
                  expected="no failing constraint", outcome=f"{role}:ok" if not fail else f"{role}:{sig_tail}", item=item)
         if _either(s_):
@@ -434,7 +478,9 @@ def attempt(res, W, case, item, fam):
         jd_ref = og.julian_date(W.utc)
         meta_ok = (abs(float(o.julian_date) - jd_ref) <= 2e-9 and o.sensor_id == W.sa.simulation_id
                    and o.sensor_type == TYPE_STRING[W.kind] and fw.maxabs(o.sensor_eci, W.frame.sensor_eci) == 0.0
-                   and list(o.measurement.labels) == LABELS[W.kind] and o.dim == len(LABELS[W.kind]))
+                   and list(o.measurement.labels) == LABELS[W.kind] and o.dim == len(LABELS[W.kind])
+                   and fw.maxabs(o.r_matrix, W.sensor_cfg["covariance"]) == 0.0
+                   and [int(a) for a in o.angular_values] == ANGLE_KINDS[: len(LABELS[W.kind])])
         res.case("obs_metadata", cid, meta_ok, signature=f"C02/obs_metadata/{role}",
                  observed={"jd": float(o.julian_date), "sensor_id": o.sensor_id, "type": o.sensor_type,
                            "labels": list(o.measurement.labels)},
@@ -453,7 +499,7 @@ def attempt(res, W, case, item, fam):
             if got is None:
                 worst, worst_label = math.inf, label
                 continue
-            e = _meas_err(label, float(got) - shift[k], exp[label]) / TOL[label]
+            e = _meas_err(label, float(got) - shift[k], exp[label]) / _tol(label, g_)
             if e > worst:
                 worst, worst_label = e, label
         extra = [lab for lab in TOL if lab not in LABELS[W.kind] and getattr(o, lab) is not None]
@@ -477,7 +523,7 @@ def attempt(res, W, case, item, fam):
         ok = status in ("fail", "either")
         if status == "either":
             res.either_way += 1
-        res.case("miss_reason", cid, ok, nontrivial=nontriv, signature=f"C02/miss_reason/{cname or 'unknown'}/not_failing",
+        res.case("miss_reason", cid, ok, nontrivial=nontriv, signature=f"C02/miss_reason/{cname or 'unknown'}/not_failing{tag}",
                  observed={"reason": m.reason, "margin": m_.get(cname) if cname else None},
                  expected={"failing": _failing(s_), "either": _either(s_)}, outcome=f"reason={cname}", item=item)
         jd_ref = og.julian_date(W.utc)
@@ -542,8 +588,8 @@ def _az_fill(seed, step=30.0):
 
 
 def _hosts(tier):
-    q = ["mid", "eq", "south", "leo_inc"]
-    return q + ["polar", "geo", "leo_eq"] if tier == "thorough" else q
+    q = ["mid", "eq", "south", "polar", "leo_inc", "geo"]
+    return q + ["leo_eq", "s30"] if tier == "thorough" else q
 
 
 def _epoch_for(kind, host):
@@ -576,6 +622,8 @@ def _cases_A(W, tier, seed, mask, rng):
     el_line = [-5.0, 0.5, el_lo - d, el_lo + d, 45.0, el_hi - d, el_hi + d, 89.999, 90.0]
     if space:
         el_line += [-20.0, -30.0, -60.0]
+    else:
+        el_line += [-0.45, -0.2]  # either side of the dip of the horizon (0.32 deg at 100 m) / of the geocentric horizon
     if tier == "thorough":
         el_line += [-1.0, 0.0, 10.0, 80.0, el_lo - 1e-4, el_lo + 1e-4, el_hi - 1e-4, el_hi + 1e-4]
     for el in el_line:
@@ -608,7 +656,10 @@ def _run_A(res, item):
         tgt = W.place(az, el, rho)
         case = {"tgt": tgt, "prior": (W.initial_boresight, 0.0),
                 "id": {"line": line, "az": az, "el": el, "rho": rho, "mask": mask_id, "range": rng_id,
-                       "el_mask_reversed": mask_id == "MK3"}}
+                       "el_mask_reversed": mask_id == "MK3", "sig": "reversed_el_mask" if mask_id == "MK3" else ""}}
+        if line == "grid":
+            # serendipitous observations are switched off for this sensor: a neighbour inside the FoV must not be reported
+            case["bg"] = [W.place(az + 0.1, min(el + 0.1, 89.9), rho * 1.001)]
         attempt(res, W, case, item, "A")
 
 
@@ -900,6 +951,9 @@ def _run_E_space(res, item):
     _f, what, host, tier, seed = item
     ph = _phase(seed, 6)
     over = {"azimuth_range": [0.0, 359.9999], "elevation_range": [-89.999, 89.999], "fov": ("conic", 10.0)}
+    if what == "los":
+        _run_E_los(res, item, over, ph)
+        return
     W = World("optical", host, "day", over)
     npsi = 4 if tier == "quick" else 12
     if what == "sun":
@@ -926,6 +980,29 @@ def _run_E_space(res, item):
                 tgt = W.place_dir(u, rho)
                 case = {"tgt": tgt, "prior": (W.initial_boresight, 0.0),
                         "id": {"what": what, "psi": psi, "angle_minus_cone": d, "rho": rho}}
+                attempt(res, W, case, item, "E")
+
+
+def _run_E_los(res, item, over, ph):
+    """Sight lines of a space-based radar grazing the Earth: closest approach of the segment = R_eq + clearance."""
+    _f, what, host, tier, seed = item
+    W = World("adv_radar", host, "day", dict(over, tx_power=1.0e12))  # sensitivity out of the way: the sight line decides
+    sen = [float(x) for x in W.frame.sensor_eci[:3]]
+    r_s = vg.norm(sen)
+    tangent = math.sqrt(r_s * r_s - og.A_EARTH**2)
+    clear = [1e-3, 1.0, 100.0] if tier == "quick" else [1e-5, 1e-3, 0.1, 1.0, 10.0, 100.0, 1000.0]
+    npsi = 4 if tier == "quick" else 12
+    for k in range(npsi):
+        psi = (ph + 360.0 / npsi * k) * DEG
+        for c in [-x for x in clear] + clear:
+            if og.A_EARTH + c >= r_s:
+                continue  # the line cannot pass that far from the geocentre when it starts at the sensor
+            ang = math.asin((og.A_EARTH + c) / r_s)
+            u = _unit_at([-x for x in sen], ang, psi)
+            for f_rho in (0.5, 1.5, 3.0):  # before the tangent point (never blocked), beyond it, far beyond it
+                tgt = W.place_dir(u, f_rho * tangent)
+                case = {"tgt": tgt, "prior": (W.initial_boresight, 0.0),
+                        "id": {"what": what, "psi": psi, "clearance_km": c, "range_over_tangent": f_rho}}
                 attempt(res, W, case, item, "E")
 
 
@@ -1003,9 +1080,11 @@ def _run_G_measure(res, item):
                 exp = {"azimuth_rad": og.azimuths(sez6), "elevation_rad": [og.elevation(sez6)], "range_km": [vg.norm(sez6)],
                        "range_rate_km_p_sec": [og.range_rate_eci(sen, tgt)]}
                 near = el >= 89.0 or az in (0.0, 359.9) or el == 0.0
+                cond = {"h": math.hypot(sez6[0], sez6[1]), "range": vg.norm(sez6),
+                        "rmax": max(vg.norm(sen), vg.norm(tgt))}
                 # classes
                 got = {lab: float(cls_of[lab]().calculate(sen, tgt, W.utc)) for lab in labels4}
-                bad = [lab for lab in labels4 if _meas_err(lab, got[lab], exp[lab]) > TOL[lab]]
+                bad = [lab for lab in labels4 if _meas_err(lab, got[lab], exp[lab]) > _tol(lab, cond)]
                 res.case("measurement_class/calculate", ident, not bad, nontrivial=near,
                          signature=f"C02/measurement_class/calculate/{'+'.join(bad)}", observed=got, expected=exp, item=item)
                 # Measurement.calculateMeasurement with a permuted label order, noise off and on (+e_k)
@@ -1017,7 +1096,7 @@ def _run_G_measure(res, item):
                     noisy = m_diag.calculateNoisyMeasurement(sen, tgt, W.utc)
                 finally:
                     np.random.randn = saved
-                bad = [lab for lab in order_b if _meas_err(lab, float(clean[lab]), exp[lab]) > TOL[lab]]
+                bad = [lab for lab in order_b if _meas_err(lab, float(clean[lab]), exp[lab]) > _tol(lab, cond)]
                 shift = {lab: (r_vec[j] if j == k else 0.0) for j, lab in enumerate(order_b)}
                 bad += [lab + ":noise" for lab in order_b
                         if abs((float(noisy[lab]) - float(clean[lab])) - shift[lab]) > 1e-6 * max(shift[lab], 1e-9)]
@@ -1030,6 +1109,8 @@ def _run_G_measure(res, item):
                 v = np.array(sez6)
                 h = math.hypot(sez6[0], sez6[1])
                 if h > 1e-6 * rho:
+                    # both sides evaluate closed forms on the SAME 6-vector: only the different operation order matters
+                    # (relative 1e-12 .. 1e-9 when h is small); 1e-7 relative exposes any wrong term or sign
                     azr, elr = _ref_rates(sez6)
                     g_azr, g_elr, g_rr = float(rmeas.getAzimuthRate(v)), float(rmeas.getElevationRate(v)), float(rmeas.getRangeRate(v))
                     scale = max(abs(azr), abs(elr), 1e-9)
@@ -1058,6 +1139,18 @@ def _run_G_static(res, item):
         want = og.C_LIGHT / f / 2.0 / 1000.0
         res.case("min_radar_range", {"f": f}, abs(got - want) <= 1e-12 * want, nontrivial=True,
                  signature="C02/min_radar_range", observed=got, expected=want, item=item)
+    for kind in KINDS:
+        for cov in ("diag", "full"):
+            c = {"diag": scen.OPT_COV if kind == "optical" else scen.RADAR_COV,
+                 "full": OPT_COV_FULL if kind == "optical" else RADAR_COV_FULL}[cov]
+            W = World(kind, "mid", "day", {"covariance": c})
+            n = len(LABELS[kind])
+            ok = ([int(a) for a in W.sensor.angle_measurements] == ANGLE_KINDS[:n] and fw.maxabs(W.sensor.r_matrix, c) == 0.0
+                  and W.sensor.measurement.dim == n and list(W.sensor.measurement.labels) == LABELS[kind]
+                  and type(W.sensor).__name__ == TYPE_STRING[kind]
+                  and fw.maxabs(W.sensor.measurement._sqrt_noise_covar, _sqrtm_ref(c)) <= 1e-9 * math.sqrt(np.max(np.abs(c))))  # noqa: SLF001
+            res.case("sensor_measurement_model", {"kind": kind, "cov": cov}, ok, nontrivial=True,
+                     signature=f"C02/sensor_measurement_model/{kind}", observed=[int(a) for a in W.sensor.angle_measurements], item=item)
     for mk, mask in MASKS.items():
         for kind in ("optical", "radar"):
             W = World(kind, "mid", "day", dict(mask))
@@ -1112,10 +1205,17 @@ def _run_G_predict(res, item):
         saved = np.random.randn
         patch = _Randn((0, 1.0))
         np.random.randn = patch
+        raised = None
         try:
             got = predictObservation(W.sa, est_agent)
+        except Exception as exc:  # noqa: BLE001
+            got, raised = None, f"{type(exc).__name__}: {exc}"
         finally:
             np.random.randn = saved
+        if raised:
+            res.violate("predict/raised", {"fam": "G", "kind": kind, "host": host, "az": az, "el": el, "rho": rho},
+                        signature=f"C02/predict/raised/{raised.split(':')[0]}", observed=raised, item=item)
+            continue
         area, refl = est_agent.visual_cross_section, est_agent.reflectivity
         st, mg, geo = _oracle_visible(W, state, area, refl, b0, dt)
         fail, either = _failing(st), _either(st)
@@ -1130,7 +1230,7 @@ def _run_G_predict(res, item):
                  outcome="none" if got is None else "obs", item=item)
         if got is not None:
             exp = _expected_meas(W, geo, kind, state)
-            bad = [lab for lab in LABELS[kind] if _meas_err(lab, float(getattr(got, lab)), exp[lab]) > TOL[lab]]
+            bad = [lab for lab in LABELS[kind] if _meas_err(lab, float(getattr(got, lab)), exp[lab]) > _tol(lab, geo)]
             meta = (got.target_id == est_agent.simulation_id and got.sensor_id == W.sa.simulation_id
                     and got.sensor_type == TYPE_STRING[kind] and abs(float(got.julian_date) - og.julian_date(W.utc)) <= 2e-9)
             res.case("predict/noise_free_measurement", ident, not bad and meta and patch.calls == 0, nontrivial=True,
@@ -1146,10 +1246,13 @@ def _run_G_predict(res, item):
     W2.sa._id = 20002  # noqa: SLF001  (second tasked sensor with its own id; same site)
     W = W1
     est_agent.time = ScenarioTime(W.t)
-    for az, el in ((100.0 + ph, 45.0), (359.95, 30.0), (200.0, 88.0)):
-        for sensors in ((W1,), (W1, W2)):
+    for az, el, daz, del_ in ((100.0 + ph, 45.0, 0.5, -0.3), (359.95, 30.0, 0.5, -0.3), (200.0, 80.0, 0.5, -0.3),
+                              (100.0 + ph, 45.0, 9.5, 0.5), (359.95, 30.0, -9.5, 0.5), (100.0 + ph, 45.0, 25.0, 0.0)):
+        # pointing error (daz, del): inside both fields of view / outside the 10 deg cone of the first sensor but inside
+        # the 20x10 deg rectangle of the second / outside both
+        for sensors in ((W1,), (W1, W2), (W2, W1)):
             truth = W.place(az, el, rho0)
-            est_state = W.place(az + 0.5, el - 0.3, rho0 * 1.001)
+            est_state = W.place(az + daz, el + del_, rho0 * 1.001)
             bgs = [W.place(az + 3.0, el + 1.0, rho0 * 0.99), W.place(az + 40.0, el, rho0)]
             est_agent.state_estimate = est_state
             handles = {}
@@ -1165,11 +1268,18 @@ def _run_G_predict(res, item):
             sub = TaskExecutionSubmission(ray.put(est_agent), handles, [ray.put(Wk.sa) for Wk in sensors])
             saved = np.random.randn
             np.random.randn = _Randn(None)
+            raised = None
             try:
                 result = ray.get(asyncExecuteTasking.remote(sub))
+            except Exception as exc:  # noqa: BLE001
+                raised = f"{type(exc).__name__}: {exc}"
             finally:
                 np.random.randn = saved
-            ident = {"fam": "G", "kind": kind, "host": host, "az": az, "el": el, "n_sensors": len(sensors)}
+            ident = {"fam": "G", "kind": kind, "host": host, "az": az, "el": el, "n_sensors": len(sensors), "d_est": [daz, del_],
+                     "first": sensors[0].sa.simulation_id}
+            if raised:
+                res.violate("execute/raised", ident, signature=f"C02/execute/raised/{raised.split(':')[0]}", observed=raised, item=item)
+                continue
             ok_shape = (result.target_id == W.targets[0].simulation_id and len(result.sensor_info_list) == len(sensors)
                         and [d["sensor_id"] for d in result.sensor_info_list] == [Wk.sa.simulation_id for Wk in sensors])
             res.case("execute/shape", ident, ok_shape, nontrivial=True, signature="C02/execute/shape",
@@ -1187,7 +1297,7 @@ def _run_G_predict(res, item):
                     st, mg, geo = og.evaluate(Wk.spec, Wk.frame, states[o.target_id], est_state, b_before, Wk.t - t_last, a, r, Wk.sun)
                     fail = _failing(st)
                     exp = _expected_meas(Wk, geo, kind, states[o.target_id])
-                    bad = [lab for lab in LABELS[kind] if _meas_err(lab, float(getattr(o, lab)), exp[lab]) > TOL[lab]]
+                    bad = [lab for lab in LABELS[kind] if _meas_err(lab, float(getattr(o, lab)), exp[lab]) > _tol(lab, geo)]
                     res.case("execute/obs_constraints", dict(ident, sensor=sid, target=o.target_id, failing=fail), not fail and not bad,
                              nontrivial=True, signature=f"C02/execute/obs/{'+'.join(fail + bad)}", item=item)
                 for m in miss:
@@ -1225,7 +1335,8 @@ def _run_G_from_measurement(res, item):
                 sez = W.frame.sez(tgt)
                 exp = {"azimuth_rad": og.azimuths(sez), "elevation_rad": [og.elevation(sez)], "range_km": [vg.norm(sez)],
                        "range_rate_km_p_sec": [og.range_rate_eci(W.frame.sensor_eci, tgt)]}
-                bad = [lab for lab in LABELS[kind] if _meas_err(lab, float(getattr(o, lab)), exp[lab]) > TOL[lab]]
+                cond = {"h": math.hypot(sez[0], sez[1]), "range": vg.norm(sez), "rmax": max(vg.norm(W.frame.sensor_eci), vg.norm(tgt))}
+                bad = [lab for lab in LABELS[kind] if _meas_err(lab, float(getattr(o, lab)), exp[lab]) > _tol(lab, cond)]
                 none_ok = all(getattr(o, lab) is None for lab in TOL if lab not in LABELS[kind])
                 meta = o.target_id == 7 and o.sensor_id == 9 and o.sensor_type == "X" and float(o.julian_date) == float(jd) \
                     and fw.maxabs(o.sensor_eci, W.sa.eci_state) == 0.0 and o.reason.value == "Visible"
@@ -1234,6 +1345,17 @@ def _run_G_from_measurement(res, item):
                          signature=f"C02/from_measurement/{'+'.join(bad) or 'fields'}",
                          observed={lab: getattr(o, lab) for lab in TOL}, expected=exp, item=item)
                 res.observe(*[float(getattr(o, lab)) for lab in LABELS[kind]])
+                if kind == "adv_radar":
+                    # a measurement object with another component order: measurement_states follows its labels
+                    order = ["range_rate_km_p_sec", "azimuth_rad", "range_km", "elevation_rad"]
+                    mm = rmeas.Measurement.fromMeasurementLabels(order, np.array([1e-5, 2e-5, 3e-4, 4e-6]))
+                    o2 = Observation.fromMeasurement(epoch_jd=jd, target_id=7, tgt_eci_state=tgt, sensor_id=9,
+                                                     sensor_eci=W.sa.eci_state, sensor_type="X", measurement=mm, noisy=False)
+                    want = [float(getattr(o, lab)) for lab in order]
+                    res.case("from_measurement/state_order", {"start": start.isoformat(), "t": t},
+                             fw.maxabs(o2.measurement_states, want) == 0.0 and o2.dim == 4, nontrivial=True,
+                             signature="C02/from_measurement/state_order", observed=list(map(float, o2.measurement_states)),
+                             expected=want, item=item)
 
 
 # ------------------------------------------------------------------------------------------------ family H: time bias
@@ -1256,7 +1378,7 @@ def _run_H(res, item):
     x120 = np.array(pos + vel, dtype=float)
     x60 = np.array(kepler_ref.propagate([float(v) for v in x120], -DT_STEP), dtype=float)
     tg = W.targets[0]
-    biases = [0.0, 5.0, -5.0, 30.0, -60.0, 60.0] + ([1.0, -1.0, 0.25, -59.0] if tier == "thorough" else [])
+    biases = [0.0, 5.0, -5.0, 30.0, -59.0, 60.0] + ([1.0, -1.0, 0.25, -30.0] if tier == "thorough" else [])
     for bias in biases + [61.0, -75.0]:
         W.goto(60.0)
         tg.eci_state = x60
@@ -1294,7 +1416,7 @@ def _run_H(res, item):
         res.case("time_bias/one_record", ident, one, nontrivial=True, signature="C02/time_bias/one_record", item=item)
         for o in obs:
             exp = _expected_meas(W, geo, kind, seen)
-            bad = [lab for lab in LABELS[kind] if _meas_err(lab, float(getattr(o, lab)), exp[lab]) > TOL_BIAS[lab]]
+            bad = [lab for lab in LABELS[kind] if _meas_err(lab, float(getattr(o, lab)), exp[lab]) > _tol(lab, geo, TOL_BIAS)]
             res.case("time_bias/measurement", dict(ident, failing=fail), not bad and not fail, nontrivial=True,
                      signature=f"C02/time_bias/measurement/{'+'.join(bad + fail)}",
                      observed={lab: float(getattr(o, lab)) for lab in LABELS[kind]}, expected=exp, item=item)
@@ -1304,6 +1426,126 @@ def _run_H(res, item):
             res.case("time_bias/miss_reason", dict(ident, reason=m.reason), st.get(cname) in ("fail", "either"), nontrivial=True,
                      signature=f"C02/time_bias/miss_reason/{cname}", observed=m.reason, expected=fail, item=item)
     W.sa.sensor_time_bias_event_queue = []
+
+
+# ------------------------------------------------------------------------------------------------ family S: DB rows
+def _spec_from_cfg(sensor_cfg, space):
+    sc = sensor_cfg["sensor"]
+    fovc = sc["field_of_view"]
+    fov = ("conic", fovc["cone_angle"]) if fovc["fov_shape"] == "conic" else ("rect", fovc["azimuth_angle"], fovc["elevation_angle"])
+    spec = {"kind": sc["type"], "space": space, "az_mask": list(sc["azimuth_range"]), "el_mask": list(sc["elevation_range"]),
+            "fov": fov, "slew_rate": sc["slew_rate"], "max_range": sc.get("maximum_range")}
+    if sc["type"] == "optical":
+        spec["min_range"] = 0.0
+        spec["detectable_vismag"] = sc.get("detectable_vismag", 25.0)
+    else:
+        spec.update(tx_power=sc["tx_power"], tx_frequency=sc["tx_frequency"], min_detectable_power=sc["min_detectable_power"],
+                    diameter=sc["aperture_diameter"], efficiency=sc["efficiency"])
+        spec["min_range"] = (og.C_LIGHT / sc["tx_frequency"] / 2.0) / 1000.0
+    return spec
+
+
+def _run_S(res, item):
+    """Rows of the observations / missed_observations tables written by a real Scenario (tasking engine, fake-ray jobs,
+    database) against the oracle evaluated on the truth ephemeris rows of the same epoch."""
+    from resonaate.data.ephemeris import TruthEphemeris  # noqa: PLC0415
+    from resonaate.physics.time.stardate import datetimeToJulianDate  # noqa: PLC0415
+    from sqlalchemy.orm import Query  # noqa: PLC0415
+
+    _f, variant, tier, seed = item
+    start = EPOCHS["night"]
+    ph = _phase(seed, 11)
+    when = start + timedelta(seconds=120)
+    subs = [(45.5, -120.5, 900.0, 60.0 + ph), (46.0, -118.0, 20000.0, 90.0), (43.5, -121.0, 1500.0, 120.0 + ph)]
+    tg = []
+    for j, sub in enumerate(subs):
+        tc = scen.target_eci(10001 + j, *scen.overhead_orbit(when, *sub))
+        tc["platform"].update(visual_cross_section=10.0, reflectivity=0.21, mass=100.0)
+        tg.append(tc)
+    wide = {"fov_shape": "conic", "cone_angle": 60.0 if variant == "wide" else 5.0}
+    ss = [scen.ground_sensor(20001, 45.0, -120.0, kind="adv_radar", fov=wide),
+          scen.ground_sensor(20002, 44.0, -119.0, kind="optical", fov=wide),
+          scen.ground_sensor(20003, 46.0, -121.5, kind="radar", fov=wide, azimuth_range=[300.0, 200.0])]
+    n_steps = 3 if tier == "quick" else 6
+    cfg = scen.config(start, n_steps + 1, [scen.engine(1, tg, ss)], physics=60, observation={"background": True}, seed=3)
+    if variant == "narrow":
+        cfg["noise"]["init_position_std_km"] = 40.0  # poor initial estimates: the narrow field of view misses the truth
+    sc = scen.build(cfg)
+    sc.propagateTo(datetimeToJulianDate(start + timedelta(seconds=60 * n_steps)))
+    truth = {}
+    for r in sc.database.getData(Query(TruthEphemeris)):
+        truth[(r.agent_id, round((r.julian_date - float(sc.clock.julian_date_start)) * 86400.0))] = np.array(r.eci, dtype=float)
+    specs = {c["id"]: _spec_from_cfg(c, False) for c in ss}
+    covs = {c["id"]: np.array(c["sensor"]["covariance"], dtype=float) for c in ss}
+    jd0 = float(sc.clock.julian_date_start)
+    frames = {}
+
+    def _eval(row):
+        k = round((row.julian_date - jd0) * 86400.0)
+        utc = start + timedelta(seconds=k)
+        sen = truth.get((row.sensor_id, k))
+        tgt = truth.get((row.target_id, k))
+        if sen is None or tgt is None:
+            return None
+        key = (row.sensor_id, k)
+        if key not in frames:
+            frames[key] = (og.Frame(sen, utc, eci2ecef), np.asarray(Sun.getPosition(og.julian_date(utc)), dtype=float).reshape(-1)[:3])
+        fr, sun = frames[key]
+        # pointing (the filter's predicted state) is not stored: FoV and slew are not evaluated here
+        st, mg, geo = og.evaluate(specs[row.sensor_id], fr, tgt, tgt, [0.0, 0.0, 1.0], 1e9, 10.0, 0.21, sun)
+        st.pop("fov"); st.pop("slew")
+        return k, sen, st, mg, geo
+
+    obs_rows = sc.database.getData(Query(Observation))
+    miss_rows = sc.database.getData(Query(MissedObservation))
+    for o in obs_rows:
+        ev = _eval(o)
+        ident = {"fam": "S", "variant": variant, "sensor": o.sensor_id, "target": o.target_id, "jd": o.julian_date}
+        if ev is None:
+            res.violate("db/obs_row_without_truth", ident, signature="C02/db/obs_row_without_truth", item=item)
+            continue
+        k, sen, st, mg, geo = ev
+        fail = _failing(st)
+        kind = specs[o.sensor_id]["kind"]
+        ok_meta = o.sensor_type == TYPE_STRING[kind] and fw.maxabs(o.sensor_eci, sen) <= 1e-9
+        res.case("db/obs_constraints", dict(ident, failing=fail), not fail and ok_meta, nontrivial=True,
+                 signature=f"C02/db/obs/{'+'.join(fail) or 'meta'}", observed={"type": o.sensor_type}, item=item)
+        exp = {"azimuth_rad": geo["az"], "elevation_rad": [geo["el"]], "range_km": [geo["range"]],
+               "range_rate_km_p_sec": [geo["range_rate"]]}
+        sig = np.sqrt(np.diag(covs[o.sensor_id]))
+        bad = []
+        for j, lab in enumerate(LABELS[kind]):
+            val = getattr(o, lab)
+            # "within the sensor's stated noise": 6 sigma (deterministic draws; P(false alarm) = 2e-9 per component)
+            if val is None or _meas_err(lab, float(val), exp[lab]) > 6.0 * sig[j] + _tol(lab, geo):
+                bad.append(lab)
+        bad += [lab for lab in TOL if lab not in LABELS[kind] and getattr(o, lab) is not None]
+        res.case("db/obs_measurement_within_noise", ident, not bad, nontrivial=True, signature=f"C02/db/measurement/{'+'.join(bad)}",
+                 observed={lab: getattr(o, lab) for lab in TOL}, expected=exp, item=item)
+        res.observe(o.sensor_id, o.target_id, float(o.azimuth_rad), float(o.elevation_rad))
+    for m in miss_rows:
+        ev = _eval(m)
+        ident = {"fam": "S", "variant": variant, "sensor": m.sensor_id, "target": m.target_id, "jd": m.julian_date, "reason": m.reason}
+        if ev is None:
+            res.violate("db/miss_row_without_truth", ident, signature="C02/db/miss_row_without_truth", item=item)
+            continue
+        k, sen, st, mg, geo = ev
+        cname = og.CONSTRAINT_OF_REASON.get(m.reason)
+        ok = cname in ("fov", "slew") or st.get(cname) in ("fail", "either")
+        res.case("db/miss_reason", dict(ident, failing=_failing(st)), ok, nontrivial=True, signature=f"C02/db/miss_reason/{cname}",
+                 observed=m.reason, expected=_failing(st), outcome=f"reason={cname}", item=item)
+        res.observe(m.sensor_id, m.target_id, m.reason)
+    # one record per (tasked sensor, primary target, step): no (sensor, target, epoch) appears both observed and missed
+    seen = {}
+    for o in obs_rows:
+        seen.setdefault((o.sensor_id, o.target_id, round((o.julian_date - jd0) * 86400.0)), [0, 0])[0] += 1
+    for m in miss_rows:
+        seen.setdefault((m.sensor_id, m.target_id, round((m.julian_date - jd0) * 86400.0)), [0, 0])[1] += 1
+    for key, (no, nm) in sorted(seen.items()):
+        res.case("db/xor", {"fam": "S", "variant": variant, "key": list(key)}, no + nm == 1, nontrivial=True,
+                 signature=f"C02/db/xor/obs={no}/miss={nm}", observed=[no, nm], item=item)
+    res.extra["db_observation_rows"] = res.extra.get("db_observation_rows", 0) + len(obs_rows)
+    res.extra["db_missed_rows"] = res.extra.get("db_missed_rows", 0) + len(miss_rows)
 
 
 # ================================================================================================ items
@@ -1318,7 +1560,7 @@ def items(tier, seed):
     for kind in KINDS:
         out.append(("A", kind, "mid", "MK3", "R0", tier, seed))
     for kind in KINDS:
-        for host in (("mid", "leo_inc") if tier == "quick" else ("mid", "eq", "leo_inc", "polar")):
+        for host in (("mid", "eq", "leo_inc") if tier == "quick" else ("mid", "eq", "leo_inc", "polar", "geo")):
             for fov_id in FOVS:
                 out.append(("B", kind, host, fov_id, tier, seed))
     for kind in KINDS:
@@ -1327,12 +1569,12 @@ def items(tier, seed):
                 out.append(("C", kind, host, rate, tier, seed))
     for kind in ("radar", "adv_radar"):
         for variant in RADAR_VARIANTS:
-            for host in (("mid",) if tier == "quick" else ("mid", "eq")):
+            for host in (("mid", "eq") if tier == "quick" else ("mid", "eq", "south", "leo_inc")):
                 out.append(("D", kind, host, variant, tier, seed))
         out.append(("D", kind, "leo_eq", "lowfreq", tier, seed))
     for what in ("darkness", "umbra", "vizmag", "galactic"):
         out.append(("Eg", what, tier, seed))
-    for what in ("sun", "galactic", "limb"):
+    for what in ("sun", "galactic", "limb", "los"):
         for host in ("leo_eq", "leo_inc", "geo"):
             out.append(("Es", what, host, tier, seed))
     for kind in KINDS:
@@ -1348,15 +1590,22 @@ def items(tier, seed):
     out.append(("Gf", tier, seed))
     for kind in KINDS:
         out.append(("H", kind, tier, seed))
+    for variant in ("wide", "narrow"):
+        out.append(("S", variant, tier, seed))
     return out
 
 
 def bounds(tier, seed):
+    its = items(tier, seed)
+    per_family = {}
+    for it in its:
+        per_family[it[0]] = per_family.get(it[0], 0) + 1
     return {
         "sensor_kinds": KINDS,
-        "hosts": {h: (GROUND.get(h) or SPACE.get(h)) for h in _hosts(tier) + ["s30", "leo_eq", "geo"]},
+        "hosts": {h: (GROUND.get(h) or SPACE.get(h)) for h in sorted(set(_hosts(tier)) | {"s30", "leo_eq", "geo"})},
         "epochs": {k: v.isoformat() for k, v in EPOCHS.items()},
         "attempt_time_s": T_OBS,
+        "step_s": DT_STEP,
         "masks": MASKS,
         "range_limits": RANGES,
         "fov": FOVS,
@@ -1364,13 +1613,16 @@ def bounds(tier, seed):
         "radar_variants": RADAR_VARIANTS,
         "azimuth_fill_deg": _az_fill(seed),
         "fov_fractions": [0.5, 0.98, 1.02] + ([0.999, 1.001, 1.5] if tier == "thorough" else []),
+        "slew_fractions": [0.0, 0.5, 0.98, 1.02, 2.0, "179.9 deg"] + ([0.999, 1.001, 10.0] if tier == "thorough" else []),
+        "radar_range_fractions": [0.5, 0.999, 1.001, 2.0] + ([0.9, 0.99999, 1.00001, 1.1] if tier == "thorough" else []),
         "noise_vectors": "0, +e_i, -e_i for every measurement component; diagonal and correlated covariance",
-        "work_items": len(items(tier, seed)),
+        "time_biases_s": [0.0, 5.0, -5.0, 30.0, -59.0, 60.0, 61.0, -75.0],
+        "work_items_per_family": per_family,
     }
 
 
 _RUN = {"A": _run_A, "B": _run_B, "C": _run_C, "D": _run_D, "Eg": _run_E_ground, "Es": _run_E_space, "F": _run_F,
-        "Gm": _run_G_measure, "Gs": _run_G_static, "Gp": _run_G_predict, "Gf": _run_G_from_measurement, "H": _run_H}
+        "Gm": _run_G_measure, "Gs": _run_G_static, "Gp": _run_G_predict, "Gf": _run_G_from_measurement, "H": _run_H, "S": _run_S}
 
 
 def run_item(item):
